@@ -4,6 +4,7 @@ From ZV Require Import Lib.Base Model.SearchCore Proofs.SearchCoreText Proofs.Se
 Fixpoint rfree (q : Q) : bool :=
   match q with
   | QRegexp _ _ _ _ _ _ => false
+  | QSymRegexp _ _ _ _ => false
   | QAnd l => forallb rfree l
   | QOr l => forallb rfree l
   | QNot q' => rfree q'
@@ -20,12 +21,17 @@ Variable orbit : N -> list N.
 Variable c : corpus.
 Variable freq : bool -> bool -> tri -> N.
 
-Lemma rfree_ok : forall q, rfree q = true -> re_okb re_match tolower orbit c freq q = true.
+(** the symbol sections of every document are sorted, non-overlapping and inside the content (what ShardBuilder.Add enforces) *)
+Definition secs_wf : Prop :=
+  forall k, k < ndocs c -> secs_okb (length (text_of c false k)) (d_secs (doc_at c k)) = true.
+
+Lemma rfree_ok : secs_wf -> forall q, rfree q = true -> re_okb re_match tolower orbit c freq q = true.
 Proof.
-  induction q using Q_ind'; intro H0; simpl in *; auto.
+  intro Hsecs. induction q using Q_ind'; intro H0; simpl in *; auto.
   - rewrite forallb_forall in *. rewrite Forall_forall in H. auto.
   - rewrite forallb_forall in *. rewrite Forall_forall in H. auto.
-  - destruct q; try contradiction; auto. discriminate.
+  - destruct q; try contradiction; auto; try discriminate.
+    cbn [re_okb]. apply forallb_forall. intros k Hk. apply in_seq in Hk. apply Hsecs. lia.
 Qed.
 
 Lemma rfree_simp : forall q, rfree q = true -> rfree (simp c q) = true.
@@ -58,6 +64,7 @@ Proof.
     + cbn [simp simp_atom]. destruct (existsb _ (c_repos c)); [|reflexivity]. destruct (forallb _ l); reflexivity.
     + cbn [simp simp_atom]. destruct (lang_code c name); reflexivity.
     + destruct names; reflexivity.
+    + reflexivity.
 Qed.
 
 Lemma rfree_expand : forall q, rfree q = true -> rfree (expand q) = true.
@@ -70,10 +77,10 @@ Qed.
 
 Hypothesis Hagree : agree tolower orbit.
 Hypothesis Hfreq : forall fn cs g, freq fn cs g = 0%N -> post orbit (ix_tris c fn) cs g = [].
-Theorem search_exact_rfree : forall q, rfree q = true ->
+Theorem search_exact_rfree : secs_wf -> forall q, rfree q = true ->
   search re_match tolower orbit c freq q = spec_search re_match tolower c q.
 Proof.
-  intros q H. apply (search_exact_checked re_match tolower orbit c freq Hagree Hfreq).
-  apply rfree_ok. apply rfree_expand. apply rfree_simp. exact H.
+  intros Hsecs q H. apply (search_exact_checked re_match tolower orbit c freq Hagree Hfreq).
+  apply rfree_ok; [exact Hsecs|]. apply rfree_expand. apply rfree_simp. exact H.
 Qed.
 End Rf.
